@@ -19,7 +19,11 @@ Not decided: byte-exact file names for exotic variable names (std::path stem/ext
 How the obligations are stated (so that they do not depend on one spelling of the code):
   writer side  on the interprocedural effects of write_to_layer_dir / the per-directory writer (Effects.expand with
                substituted arguments, guards_of along the call chain): loops, try_for_each closures, private helpers and
-               `File::create(p)?.write_all(d)` are the same effects as the present `for` + `fs::write(p, d)`.
+               `File::create(p)?.write_all(d)` are the same effects as the present `for` + `fs::write(p, d)`.  The values
+               are taken with H.GrowSlicer: a table of (directory, delta) rows assembled in steps (`vec![..]` then
+               `extend(self.process.iter().map(..))` / `push`) is the chain of its rows, so a loop over it is unrolled
+               like a loop over a literal table; a Vec mutated in any way that is not an exact, once-executed append
+               dominating all its readers is opaque (the writes through it are then not recognised => alarm).
   reader side  (rules/C03_helpers.py) the scope table on value normal forms (success payloads, iterator algebra for maps
                collected from a pipeline, maps filled by a private helper); the per-file reads as effects with guards_of;
                the extension table / name / value by evaluating the reader's MIR once per extension scenario
@@ -47,9 +51,13 @@ def run(ctx, rep):
     rep.rule('R5', 'writer effects confined to <layer>/{env, env.build, env.launch}')
     rep.not_decided = ['file-name splitting for exotic variable names (delegated to std::path)',
                        'equality of apply() results at the value level', 'non-unix cfg branches']
-    E = Effects(prog, sl)
+    # writer side: values in which a Vec grown through `&mut` (vec![..] + extend / push) before it is iterated is the
+    # chain of its rows (H.GrowSlicer) — a table of (directory, delta) pairs assembled in steps is then unrolled by
+    # Effects.expand like a literal table; the reader side keeps the shared slicer
+    slw = H.GrowSlicer(prog)
+    E = Effects(prog, slw)
     # ---- R1 ------------------------------------------------------------------------------------
-    wf, wt, wcalls = L.writer_scope_table(prog, sl)
+    wf, wt, wcalls = L.writer_scope_table(prog, slw)
     rf, rt, rdetail = H.reader_scope_table(prog, sl)
     rep.analysed(wf)
     rep.analysed(rf)
@@ -81,7 +89,7 @@ def run(ctx, rep):
     nested = [s for s, cs in wt.items() if cs and len(cs) > 1 and any(o != s and wt[o] == cs[:-1] for o in wt)]
     # (the reads are taken as interprocedural effects of the per-directory reader: directly in its body, in a private
     # helper or in a closure; the guards are those of every level of the call chain, boolean helpers inlined)
-    h, reads = H.per_file_reads(prog, sl, E)
+    h, reads = H.per_file_reads(prog, sl, Effects(prog, sl))
     rep.analysed(h)
     if not reads:
         rep.unproven('R1', 'reader/per-file-read', '%s:%d' % (h.file, h.line), 'no fs::read in the per-directory reader')
@@ -93,7 +101,7 @@ def run(ctx, rep):
                       'guarded by a file-type test: reading back a written per-process environment fails with EISDIR' % nested,
                       {'nested_scopes': nested, 'via': e.via()})
     # ---- R2 ------------------------------------------------------------------------------------
-    wd, ws, winfo = L.writer_suffix_table(prog, sl)
+    wd, ws, winfo = L.writer_suffix_table(prog, slw)
     hd, rs, rinfo = H.reader_behaviour(prog, sl)
     rep.analysed(wd)
     wdw = '%s:%d' % (wd.file, wd.line)
@@ -164,7 +172,7 @@ def run(ctx, rep):
                           '%s can happen before the old directory is removed' % e.call.name)
     # the per-directory writer runs on every base scope directory on every successful write (also when the new
     # delta is empty), and on env.launch before the per-process directories inside it
-    md = L.writer_must_dirs(prog, sl)
+    md = L.writer_must_dirs(prog, slw)
     base_must = [cs for cs, fa in md if not fa]
     for scope in ('all', 'build', 'launch'):
         want = SPEC_SCOPES[scope]
@@ -195,7 +203,7 @@ def run(ctx, rep):
                   'written bytes are not the raw value: ' + vstr(dv)[:120])
         cs = L.comps(e.path, root) if e.path is not None else None
         if cs is None and e.path is not None:
-            cs = L.comps(sl.inline_deep(e.path), root)
+            cs = L.comps(slw.inline_deep(e.path), root)
         rep.check(cs is not None and len(cs) == 1, 'R4', 'writer/file-path', e.where(), 'file is created directly inside the scope directory',
                   'file path is not <dir>/<name>: ' + vstr(e.path)[:120])
     # what reaches the delta insert (any scenario): name = stem of the entry's path, value = raw bytes of the same file
